@@ -22,7 +22,7 @@ except ImportError:
 VARIANTS = {0: "intrusive/dynamic_buffer", 1: "container/dynamic_buffer", 2: "intrusive/static_buffer",
             3: "container/static_buffer", 4: "container/default traits (sync::spin, backoff::Default)"}
 CAPS = [1, 3, 7, 15]
-STEP_FUEL = 20000       # global step limit of a run (both sides)
+STEP_FUEL = 4000        # global step limit of a run (both sides; harness/C11/main.cpp uses the same number)
 LOCK_FUEL = 30000       # spin / heapify loop fuel of the model: larger than the step limit, never the first to run out
 HEAP_FUEL = 30000
 STEPS_PER_OP = 40       # more atomic accesses than one uncontended operation performs at capacity <= 15
